@@ -316,6 +316,11 @@ func CompBoundaryPrograms() []CompCase {
 		CompCase{Src: "f := func(...a) {}\nf(" + seq(255, num, ", ") + ")\n"},
 		CompCase{Src: "f := func(...a) {}\nf(" + seq(256, num, ", ") + ")\n"},
 		CompCase{Src: "f := func(...a) {}\nf(zz, " + seq(256, num, ", ") + ")\n"},
+		// selector counts around the one-byte operand of OpSetSel* (O35), on a global, a local and a captured variable
+		CompCase{Src: "a := {}\nif false { a" + seq(255, func(int) string { return "[0]" }, "") + " = 1 }\n"},
+		CompCase{Src: "a := {}\nif false { a" + seq(256, func(int) string { return "[0]" }, "") + " = 1 }\n"},
+		CompCase{Src: "f := func() { a := {}; if false { a" + seq(256, func(int) string { return ".k" }, "") + " = 1 } }\n"},
+		CompCase{Src: "f := func() { a := {}; return func() { if false { a" + seq(257, func(int) string { return ".k" }, "") + " += zz } } }\n"},
 		CompCase{Src: "f := func() {\n" + seq(256, func(i int) string { return "v" + N(i) + " := " + N(i) }, "\n") + "\n}\n"},
 		CompCase{Src: "f := func() {\n" + seq(257, func(i int) string { return "v" + N(i) + " := " + N(i) }, "\n") + "\n}\n"},
 		CompCase{Src: "f := func(p) {\n" + seq(128, func(i int) string { return "{ v" + N(i) + " := " + N(i) + "; { w := 1 } }" }, "\n") + "\n" + seq(254, func(i int) string { return "u" + N(i) + " := p" }, "\n") + "\n}\n"},
@@ -450,5 +455,22 @@ func CompLargePrograms() []CompCase {
 		b.WriteString("\tif p { q = q + " + N(i) + " } else { q = q - 1 }\n")
 	}
 	b.WriteString("\treturn func() { return q }\n}\n")
-	return []CompCase{{Src: a.String()}, {Src: b.String()}}
+	// element counts around the two-byte operands of OpArray / OpMap (O35)
+	lit := func(n int, open, close string, el func(i int) string) string {
+		var sb strings.Builder
+		sb.WriteString("out := 0\nif out == 1 {\n x := " + open)
+		for i := 0; i < n; i++ {
+			if i > 0 {
+				sb.WriteString(",")
+			}
+			sb.WriteString(el(i))
+		}
+		sb.WriteString(close + "\n}\nout = 5\n")
+		return sb.String()
+	}
+	one := func(int) string { return "1" }
+	kv := func(i int) string { return "k" + N(i) + ":1" }
+	return []CompCase{{Src: a.String()}, {Src: b.String()},
+		{Src: lit(65535, "[", "]", one)}, {Src: lit(65536, "[", "]", one)},
+		{Src: lit(32767, "{", "}", kv)}, {Src: lit(32768, "{", "}", kv)}}
 }
